@@ -106,6 +106,23 @@ def classify_head(ctx, rule='D3'):
         okm = isinstance(mt, ast.Call) and m.resolve_call(fi, mt) == f'{CL}.matching_taxon' and [u(a) for a in mt.args] == [f'{u(g)}.taxon', u(d)]
         rep.add(rule, fi.site(first), "the closest match's taxon is decided from its own genome's taxon and its own distance", okm, expected=f'matching_taxon({u(g)}.taxon, {u(d)})', found=u(mt),
                 stmt='closest matched taxon')
+    # every classifier result reports exactly that match as its closest match, and nothing rewrites it afterwards
+    gm_h = guard_map(fn)
+
+    def in_scope(node):
+        # C03 (rule D3) is about the default mode only: strict-mode statements are C09/C10's business
+        s_ = next((x for x in stmts_in(fn.body) if any(y is node for y in ast.walk(x)) and not isinstance(x, (ast.If, ast.For, ast.While, ast.With, ast.Try))), None)
+        return rule != 'D3' or s_ is None or ('true', 'strict') not in path_atoms(gm_h[s_])
+    results = [c for c in calls_in(fn) if m.resolve_call(fi, c) == f'{CL}.ClassifierResult' and in_scope(c)]
+    bad = [c for c in results if u(get_arg(c, 3, 'closest_match')) != cm]
+    rep.add(rule, fi.site(bad[0] if bad else first), 'every classifier result (default and strict mode) reports the argmin match as its closest match', bool(results) and not bad,
+            expected=f'closest_match={cm}', found=[u(get_arg(c, 3, 'closest_match')) for c in results], stmt='closest match in results')
+    rewrites = [s for s in stmts_in(fn.body) if isinstance(s, (ast.Assign, ast.AugAssign)) and any(
+        isinstance(t, ast.Attribute) and t.attr in ('closest_match', 'next_taxon') for t in (s.targets if isinstance(s, ast.Assign) else [s.target]))]
+    rewrites += [s for s in stmts_in(fn.body) if isinstance(s, ast.Assign) and any(isinstance(t, ast.Name) and t.id == cm for t in s.targets) and s is not st]
+    rewrites = [s for s in rewrites if in_scope(s)]
+    rep.add(rule, fi.site(rewrites[0] if rewrites else first), 'the closest match (and the next taxon derived from it) is never replaced after it was determined', not rewrites, expected='no store to .closest_match / .next_taxon',
+            found=[u(s) for s in rewrites], stmt='closest match rewritten')
     return fi, cm, st
 
 
